@@ -20,7 +20,16 @@ import (
 	"github.com/q191201771/naza/pkg/nazabytes"
 )
 
-func ParseSps(payload []byte, ctx *Context) error {
+func ParseSps(payload []byte, ctx *Context) (err error) {
+	// nazabits.BitReader indexes past its buffer (panic) when an exp-golomb code word `1` is the very last bit of the
+	// buffer. The sps is untrusted input, turn that into an error.
+	defer func() {
+		if r := recover(); r != nil {
+			Log.Errorf("parse sps panic. r=%+v, payload=%s", r, hex.Dump(nazabytes.Prefix(payload, 128)))
+			err = nazaerrors.Wrap(base.ErrAvc)
+		}
+	}()
+
 	// the syntax elements are coded in the RBSP, i.e. after the emulation prevention bytes have been removed
 	br := nazabits.NewBitReader(nal2rbsp(payload))
 	var sps Sps
